@@ -316,3 +316,74 @@ Proof.
   crack. apply andb_true_iff in Heqb. destruct Heqb as [Hab Hc]. apply andb_true_iff in Hab. destruct Hab as [Ha Hb].
   apply etype_eqb_eq in Ha. apply String.eqb_eq in Hb. apply orv_eqb_eq in Hc. subst. split; reflexivity.
 Qed.
+
+(* ==========================================================================================
+   iter_jsonlines: the lines do not depend on how the bytes are chunked
+   ========================================================================================== *)
+
+Definition nonl (l : list Z) : Prop := forall b, In b l -> b <> 10.
+
+Lemma scan_app : forall a b acc,
+  scan (a ++ b) acc = let (ls, r) := scan a acc in let (ls', r') := scan b r in (ls ++ ls', r').
+Proof.
+  induction a as [| x a IH]; intros b acc; cbn.
+  - destruct (scan b acc); reflexivity.
+  - destruct (Z.eqb x 10).
+    + rewrite IH. destruct (scan a []) as [ls r]. destruct (scan b r) as [ls' r'].
+      destruct acc; reflexivity.
+    + apply IH.
+Qed.
+
+Lemma scan_nonl : forall l acc, nonl l -> scan l acc = ([], acc ++ l).
+Proof.
+  induction l as [| x l IH]; intros acc H; cbn.
+  - rewrite app_nil_r; reflexivity.
+  - assert (E : Z.eqb x 10 = false) by (apply Z.eqb_neq, H; left; reflexivity). rewrite E.
+    rewrite IH; [rewrite <- app_assoc; reflexivity |]. intros b Hb; apply H; right; assumption.
+Qed.
+
+Lemma scan_rest_nonl : forall l acc, nonl acc -> nonl (snd (scan l acc)).
+Proof.
+  induction l as [| x l IH]; intros acc H; cbn; [assumption |].
+  destruct (Z.eqb x 10) eqn:E.
+  - specialize (IH [] (fun b (Hb : In b []) => match Hb with end)). destruct (scan l []) as [ls r]. exact IH.
+  - apply IH. intros b Hb. apply in_app_or in Hb. destruct Hb as [Hb | [<- | []]]; [apply H; assumption |].
+    apply Z.eqb_neq; assumption.
+Qed.
+
+Lemma feed_concat : forall chunks buffer, nonl buffer ->
+  feed chunks buffer = let (ls, r) := scan (buffer ++ List.concat chunks) [] in ls ++ match r with [] => [] | _ => [r] end.
+Proof.
+  induction chunks as [| d rest IH]; intros buffer H; cbn.
+  - rewrite app_nil_r. rewrite (scan_nonl _ _ H). reflexivity.
+  - rewrite app_assoc. rewrite (scan_app (buffer ++ d) (List.concat rest) []).
+    pose proof (scan_rest_nonl (buffer ++ d) [] (fun b (Hb : In b []) => match Hb with end)) as Hr.
+    destruct (scan (buffer ++ d) []) as [ls r]. cbn in Hr.
+    rewrite (IH r Hr).
+    rewrite (scan_app r (List.concat rest) []). rewrite (scan_nonl r [] Hr). cbn [app].
+    destruct (scan (List.concat rest) r) as [ls' r']. rewrite app_assoc. reflexivity.
+Qed.
+
+Lemma jsonlines_chunking : forall chunks, jsonlines chunks = jsonlines [List.concat chunks].
+Proof.
+  intros chunks. unfold jsonlines.
+  rewrite (feed_concat chunks [] (fun b (Hb : In b []) => match Hb with end)).
+  rewrite (feed_concat [List.concat chunks] [] (fun b (Hb : In b []) => match Hb with end)).
+  cbn [List.concat]. rewrite app_nil_r. reflexivity.
+Qed.
+
+(* the lines are exactly the non-empty newline-separated pieces: no line is lost, split or merged *)
+Lemma jsonlines_of_lines : forall ls, (forall l, In l ls -> nonl l /\ l <> []) ->
+  jsonlines [List.concat (map (fun l => l ++ [10]) ls)] = ls.
+Proof.
+  intros ls H. unfold jsonlines. cbn [feed app].
+  assert (G : forall ls, (forall l, In l ls -> nonl l /\ l <> []) ->
+              scan (List.concat (map (fun l => l ++ [10]) ls)) [] = (ls, [])).
+  { clear. induction ls as [| l ls IH]; intros H; cbn; [reflexivity |].
+    destruct (H l (or_introl eq_refl)) as [Hn Hne].
+    rewrite <- app_assoc. rewrite scan_app. rewrite (scan_nonl l [] Hn). cbn [app].
+    change ([10] ++ List.concat (map (fun l0 => l0 ++ [10]) ls)) with (10 :: List.concat (map (fun l0 => l0 ++ [10]) ls)).
+    cbn [scan]. rewrite Z.eqb_refl. rewrite IH; [| intros l0 Hl0; apply H; right; assumption].
+    destruct l; [contradiction | reflexivity]. }
+  rewrite (G ls H). cbn. rewrite app_nil_r. reflexivity.
+Qed.
